@@ -10,7 +10,7 @@
    discharged for every reachable state by the store-completeness invariant (c03_store_complete, c03_reachable_reply_exact).  Byte-level body identity across parse and
    rebuild is C10/C11's (codec area) and is compared byte-for-byte by the stream. *)
 From Coq Require Import ZArith List Bool.
-From QF Require Import Base.Bytes Session.Types Session.Model Session.Spec Session.LocalProofs Session.ResendProofs Session.StoreProofs.
+From QF Require Import Base.Bytes Session.Types Session.Model Session.Spec Session.LocalProofs Session.ResendProofs Session.StoreProofs Session.C03TraceProofs.
 Import ListNotations.
 Open Scope Z_scope.
 
@@ -58,3 +58,10 @@ Theorem c03_reachable_reply_exact : forall c es s m s1 b e0,
   exists new, s_wire (resend_messages s1 b (clip_end (s_cfg s1) (s_snd s1) e0) m) = new ++ s_wire s1
     /\ c03_reply_check (s_cfg s1) (s_msgs s1) (s_snd s1) m (rev new) = [].
 Proof. exact reachable_reply_exact. Qed.
+
+(* TRACE LEVEL.  c03_check is the trace predicate the driver evaluates on the implementation's observations (the reply to
+   every verified ResendRequest processed directly by a logged-on, non-recovering session with nothing queued or buffered,
+   judged by c03_reply_check against the store as it was before the request).  On the model it finds nothing, for every
+   configuration and every event list. *)
+Theorem c03_holds_on_every_trace : forall c es, c03_check c (combine es (map obs_of (run_trace es (init_sess c)))) = [].
+Proof. exact c03_model_ok. Qed.
